@@ -33,7 +33,7 @@ Definition binary_tok_ok (t : token_type) : bool :=
    negb (definition_eqb d D_SideEffect) && negb (definition_eqb d D_Drop) && negb (definition_eqb d D_Identifier) &&
    match priority d, ref_rank d with
    | Some my, Some p =>
-     negb (walk_stop my 10 (rtl_of sec)) && N.ltb p INF && N.ltb 10 my && frameable d &&
+     negb (walk_stop my 10 (rtl_of sec)) && negb (walk_stop my 20 (rtl_of sec)) && N.ltb p INF && N.ltb 10 my && frameable d &&
      forallb (fun d' => implb (frameable d') (cmp_ok d my (rtl_of sec) d')) all_definition
    | _, _ => false
    end).
@@ -56,6 +56,7 @@ Record binary_facts (t : token_type) (sec : secondary) (my p : N) : Prop := mkBF
   bf_prio : priority (ref_def t) = Some my;
   bf_rank : ref_rank (ref_def t) = Some p;
   bf_atom : walk_stop my 10 (rtl_of sec) = false;
+  bf_group : walk_stop my 20 (rtl_of sec) = false;
   bf_inf : (p < INF)%N;
   bf_gt : (10 < my)%N;
   bf_cmp : forall d', frameable d' = true -> cmp_ok (ref_def t) my (rtl_of sec) d' = true;
@@ -79,7 +80,8 @@ Proof.
   apply andb_true_iff in G. destruct G as [G G5].
   apply andb_true_iff in G. destruct G as [G G4].
   apply andb_true_iff in G. destruct G as [G G3].
-  apply andb_true_iff in G. destruct G as [G1 G2].
+  apply andb_true_iff in G. destruct G as [G G2].
+  apply andb_true_iff in G. destruct G as [G1 G1'].
   exists sec, my, p. constructor.
   - exact Eg.
   - exact F2.
@@ -89,6 +91,7 @@ Proof.
   - exact Ep.
   - exact Er.
   - apply negb_true_iff. exact G1.
+  - apply negb_true_iff. exact G1'.
   - apply N.ltb_lt. exact G2.
   - apply N.ltb_lt. exact G3.
   - rewrite forallb_forall in G5. intros d' Hd'. specialize (G5 d' (all_definitions_in d')).
@@ -99,7 +102,7 @@ Qed.
 Definition frame_def_ok (d : definition) : bool :=
   implb (frameable d)
     match priority d, ref_rank d with
-    | Some their, Some q => N.ltb 10 their && negb (definition_eqb d D_SideEffect)
+    | Some their, Some q => N.ltb 10 their && negb (definition_eqb d D_SideEffect) && negb (is_group_like d)
     | _, _ => false
     end.
 
@@ -108,70 +111,93 @@ Proof. vm_compute. reflexivity. Qed.
 
 Lemma frame_def_facts d : frameable d = true ->
   exists their q, priority d = Some their /\ ref_rank d = Some q /\ (10 < their)%N /\
-                  definition_eqb d D_SideEffect = false.
+                  definition_eqb d D_SideEffect = false /\ is_group_like d = false.
 Proof.
   intros H. pose proof frame_defs_ok as F. rewrite forallb_forall in F. specialize (F d (all_definitions_in d)).
   unfold frame_def_ok in F. rewrite H in F. cbn [implb] in F. destruct (priority d) as [their|]; [|discriminate].
-  destruct (ref_rank d) as [q|]; [|discriminate]. apply andb_true_iff in F. destruct F as [F1 F2].
-  exists their, q. repeat split; auto; [apply N.ltb_lt; exact F1|apply negb_true_iff; exact F2].
+  destruct (ref_rank d) as [q|]; [|discriminate]. apply andb_true_iff in F. destruct F as [F F3].
+  apply andb_true_iff in F. destruct F as [F1 F2].
+  exists their, q. repeat split; auto; [apply N.ltb_lt; exact F1|apply negb_true_iff; exact F2|apply negb_true_iff; exact F3].
 Qed.
 
-Definition frames_ok (fs : list frame) : Prop := forall f, In f fs -> frameable (frame_def f) = true.
-
-Lemma compat_of_facts t sec my p fs :
-  binary_facts t sec my p -> frames_ok fs -> compat (ref_def t) my (rtl_of sec) fs.
-Proof.
-  intros BF FO f Hf. pose proof (bf_cmp _ _ _ _ BF _ (FO f Hf)) as C. unfold cmp_ok in C.
-  destruct (priority (frame_def f)) as [their|]; [|discriminate].
-  destruct (ref_rank (frame_def f)) as [q|] eqn:Eq; [|discriminate].
-  exists their. split; [reflexivity|]. unfold stays_below. rewrite Eq. apply eqb_prop. exact C.
-Qed.
+Definition frames_ok (fs : list frame) : Prop :=
+  forall f, In f fs -> is_fgroup f = false -> frameable (frame_def f) = true.
 
 Lemma pop_frames_ok d fs t fs' t' : frames_ok fs -> pop d fs t = (fs', t') -> frames_ok fs'.
 Proof.
-  apply (pop_ind (fun a _ => frames_ok a) d). intros f r _ H f' Hf'. apply H. right. exact Hf'.
+  apply (pop_ind (fun a _ => frames_ok a) d). intros f r _ H f' Hf' Hg. apply H; [right; exact Hf'|exact Hg].
 Qed.
 
-(* ---- unfolding one loop iteration on a binary operator token ---- *)
+(* the parser's [under_group] *)
+Definition under_group_of (st : pstate) : res (option nat) :=
+  match current_group st with
+  | None => Ok None
+  | Some c => match nth_error (group_stack st) c with
+              | None => impl_err
+              | Some (g, _) => Ok (Some g)
+              end
+  end.
+
+(* ---- unfolding one loop iteration ---- *)
+Ltac fields :=
+  cbn [nodes next_parent last_left check_for_list last_token next_last_left group_stack
+       current_group prev_sec prev_sig separated se_prev bind].
+
+Ltac fields_in_all :=
+  cbn [nodes next_parent last_left check_for_list last_token next_last_left group_stack
+       current_group prev_sec prev_sig separated se_prev] in *.
+
+(* the last_left adjustment after a finished side effect does not apply *)
+Definition adj_ok (ns : list pnode) (ll : option nat) : Prop :=
+  ll = None \/ exists l ln, ll = Some l /\ nth_error ns l = Some ln /\
+                            definition_eqb (n_def ln) D_SideEffect = false.
+
+Lemma adj_simpl ns ll ug (ps psig : secondary) :
+  adj_ok ns ll ->
+  match ll with
+  | Some li =>
+      match nth_error ns li with
+      | Some n =>
+          if definition_eqb (n_def n) D_SideEffect && negb (opt_nat_eqb ll ug) &&
+             match n_parent n with Some _ => true | None => false end &&
+             match n_left n with Some _ => false | None => true end
+          then Ok (n_parent n, ps, psig)
+          else Ok (ll, ps, psig)
+      | None => impl_err
+      end
+  | None => Ok (ll, ps, psig)
+  end = Ok (ll, ps, psig).
+Proof. intros [->|(l & ln & -> & Hln & Hse)]; [reflexivity|]. rewrite Hln, Hse. reflexivity. Qed.
+
 Lemma app_last_match {A B} (l : list A) (x : A) (a b : B) :
   match l ++ [x] with [] => a | _ :: _ => b end = b.
 Proof. destruct l; reflexivity. Qed.
 
-Lemma step_binary_unfold ntoks i tok st d sec l ln :
+(* a binary operator token *)
+Lemma step_binary_unfold ntoks i tok st ug d sec :
   get_definition tok = (d, sec) -> is_bin_sec sec = true ->
   definition_eqb d D_Drop = false -> definition_eqb d D_Identifier = false ->
-  current_group st = None -> next_last_left st = None ->
-  last_left st = Some l -> nth_error (nodes st) l = Some ln -> definition_eqb (n_def ln) D_SideEffect = false ->
+  under_group_of st = Ok ug -> next_last_left st = None -> adj_ok (nodes st) (last_left st) ->
   forbidden (prev_sec st) sec (check_for_list st) = false ->
   separated st && forbidden_separated (prev_sig st) sec (check_for_list st) = false ->
   step ntoks i tok st =
-    do r2 <- parse_token (length (nodes st)) d (Some l) (nodes st) None (rtl_of sec);
+    do r2 <- parse_token (length (nodes st)) d (last_left st) (nodes st) ug (rtl_of sec);
     let '(ns2, parent, tl) := r2 in
     Ok (mkState (ns2 ++ [mkNode d sec parent tl
                            (if Nat.leb ntoks (i + 1) then None else Some (length (nodes st) + 1)) (Some i)])
                 (Some (length (nodes st))) (Some (length (nodes st))) false (Some i) None
-                (group_stack st) None sec sec false (se_prev st)).
+                (group_stack st) (current_group st) sec sec false (se_prev st)).
 Proof.
-  intros Hg Hs Hdrop Hid Hcg Hnll Hll Hln Hse Hforb Hsep.
-  destruct st as [ns np ll cfl lt nll gs cg ps psig sep sep_prev]. cbn [nodes next_parent last_left check_for_list
-    last_token next_last_left group_stack current_group prev_sec prev_sig separated se_prev] in *.
-  subst cg nll ll. unfold step.
-  cbn [nodes next_parent last_left check_for_list
-    last_token next_last_left group_stack current_group prev_sec prev_sig separated se_prev bind].
-  rewrite Hln, Hse. cbn [andb bind]. rewrite Hg.
-  cbn [nodes next_parent last_left check_for_list
-    last_token next_last_left group_stack current_group prev_sec prev_sig separated se_prev bind].
-  rewrite Hforb.
-  destruct sec; try discriminate; cbn [negb andb] in *; rewrite Hsep; cbn [rtl_of bind];
-  cbn [nodes next_parent last_left check_for_list
-    last_token next_last_left group_stack current_group prev_sec prev_sig separated se_prev bind];
-  (destruct (parse_token (length ns) d (Some l) ns None _) as [[[ns2 parent] tl]| | |]; cbn [bind]; try reflexivity);
-  cbn [nodes next_parent last_left check_for_list
-    last_token next_last_left group_stack current_group prev_sec prev_sig separated se_prev bind];
-  rewrite Hdrop, Hid; rewrite app_last_match; reflexivity.
+  intros Hg Hs Hdrop Hid Hug Hnll Hadj Hforb Hsep.
+  destruct st as [ns np ll cfl lt nll gs cg ps psig sep sep_prev]. unfold under_group_of in Hug. fields_in_all.
+  subst nll. unfold step. fields. rewrite Hug. cbn [bind]. rewrite (adj_simpl ns ll ug ps psig Hadj). fields.
+  rewrite Hg. fields. rewrite Hforb.
+  destruct sec; try discriminate; cbn [negb andb] in *; rewrite Hsep; cbn [rtl_of bind]; fields;
+  (destruct (parse_token (length ns) d ll ns ug _) as [[[ns2 parent] tl]| | |]; cbn [bind]; try reflexivity);
+  fields; rewrite Hdrop, Hid; rewrite app_last_match; reflexivity.
 Qed.
 
-(* ---- unfolding one loop iteration on a value token (no list pending) ---- *)
+(* a value token, no list pending *)
 Definition atom_def (d : definition) (parent : option nat) (ns : list pnode) : definition :=
   if definition_eqb d D_Identifier then
     match parent with
@@ -182,52 +208,26 @@ Definition atom_def (d : definition) (parent : option nat) (ns : list pnode) : d
     end
   else d.
 
-Lemma step_value_unfold ntoks i tok st d sec :
+Lemma step_value_unfold ntoks i tok st ug d sec :
   get_definition tok = (d, sec) -> is_atom_sec sec = true -> definition_eqb d D_Drop = false ->
-  current_group st = None -> next_last_left st = None -> check_for_list st = false ->
-  (last_left st = None \/
-   exists l ln, last_left st = Some l /\ nth_error (nodes st) l = Some ln /\
-                definition_eqb (n_def ln) D_SideEffect = false) ->
+  under_group_of st = Ok ug -> next_last_left st = None -> check_for_list st = false ->
+  adj_ok (nodes st) (last_left st) ->
   forbidden (prev_sec st) sec false = false ->
   separated st && forbidden_separated (prev_sig st) sec false = false ->
   step ntoks i tok st =
-    do r2 <- parse_token (length (nodes st)) d (last_left st) (nodes st) None false;
+    do r2 <- parse_token (length (nodes st)) d (last_left st) (nodes st) ug false;
     let '(ns2, parent, tl) := r2 in
     Ok (mkState (ns2 ++ [mkNode (atom_def d parent ns2) sec parent tl None (Some i)])
                 (next_parent st) (Some (length (nodes st))) false (Some i) None
-                (group_stack st) None sec sec false (se_prev st)).
+                (group_stack st) (current_group st) sec sec false (se_prev st)).
 Proof.
-  intros Hg Hs Hdrop Hcg Hnll Hcfl Hll Hforb Hsep.
-  destruct st as [ns np ll cfl lt nll gs cg ps psig sep sep_prev]. cbn [nodes next_parent last_left check_for_list
-    last_token next_last_left group_stack current_group prev_sec prev_sig separated se_prev] in *.
-  subst cg nll cfl. unfold step.
-  cbn [nodes next_parent last_left check_for_list
-    last_token next_last_left group_stack current_group prev_sec prev_sig separated se_prev bind].
-  assert (Hadj : match ll with
-            | Some li =>
-                match nth_error ns li with
-                | Some n =>
-                    if definition_eqb (n_def n) D_SideEffect && negb (opt_nat_eqb ll None) &&
-                       match n_parent n with Some _ => true | None => false end &&
-                       match n_left n with Some _ => false | None => true end
-                    then Ok (n_parent n, ps, psig)
-                    else Ok (ll, ps, psig)
-                | None => impl_err
-                end
-            | None => Ok (ll, ps, psig)
-            end = Ok (ll, ps, psig)).
-  { destruct Hll as [->|(l & ln & -> & Hln & Hse)]; [reflexivity|]. rewrite Hln, Hse. reflexivity. }
-  rewrite Hadj. cbn [bind]. rewrite Hg.
-  cbn [nodes next_parent last_left check_for_list
-    last_token next_last_left group_stack current_group prev_sec prev_sig separated se_prev bind].
-  rewrite Hforb.
-  destruct sec; try discriminate; cbn [negb andb] in *; rewrite Hsep; cbn [bind];
-  cbn [nodes next_parent last_left check_for_list
-    last_token next_last_left group_stack current_group prev_sec prev_sig separated se_prev bind];
-  (destruct (parse_token (length ns) d ll ns None false) as [[[ns2 parent] tl]| | |]; cbn [bind]; try reflexivity);
-  cbn [nodes next_parent last_left check_for_list
-    last_token next_last_left group_stack current_group prev_sec prev_sig separated se_prev bind];
-  rewrite Hdrop; rewrite app_last_match; reflexivity.
+  intros Hg Hs Hdrop Hug Hnll Hcfl Hadj Hforb Hsep.
+  destruct st as [ns np ll cfl lt nll gs cg ps psig sep sep_prev]. unfold under_group_of in Hug. fields_in_all.
+  subst nll cfl. unfold step. fields. rewrite Hug. cbn [bind]. rewrite (adj_simpl ns ll ug ps psig Hadj). fields.
+  rewrite Hg. fields. rewrite Hforb.
+  destruct sec; try discriminate; cbn [negb andb] in *; rewrite Hsep; cbn [bind]; fields;
+  (destruct (parse_token (length ns) d ll ns ug false) as [[[ns2 parent] tl]| | |]; cbn [bind]; try reflexivity);
+  fields; rewrite Hdrop; rewrite app_last_match; reflexivity.
 Qed.
 
 (* ---- parse_token for a value arriving while the innermost frame waits for it ---- *)
@@ -238,70 +238,38 @@ Proof.
   - rewrite (IH k H E). reflexivity.
 Qed.
 
-Lemma parse_token_pending ns fs d :
+(* every frame's node outranks a value *)
+Lemma frame_outranks_value f : (is_fgroup f = false -> frameable (frame_def f) = true) ->
+  exists their, priority (frame_def f) = Some their /\ (10 <? their)%N = true.
+Proof.
+  intros H. destruct f as [i d k l|i d k|i k].
+  - destruct (frame_def_facts _ (H eq_refl)) as (their & q & Hth & _ & Hgt & _).
+    exists their. split; [exact Hth|apply N.ltb_lt; exact Hgt].
+  - destruct (frame_def_facts _ (H eq_refl)) as (their & q & Hth & _ & Hgt & _).
+    exists their. split; [exact Hth|apply N.ltb_lt; exact Hgt].
+  - exists 20%N. split; reflexivity.
+Qed.
+
+Lemma parse_token_pending ns fs ug d :
   spine ns fs (length ns) -> frames_ok fs -> priority d = Some 10%N ->
   definition_eqb d D_SideEffect = false ->
-  parse_token (length ns) d (top_id fs) ns None false = Ok (ns, top_id fs, None).
+  parse_token (length ns) d (top_id fs) ns ug false = Ok (ns, top_id fs, None).
 Proof.
   intros Sp FO Hp Hse. unfold parse_token, prio_of. rewrite Hp, Hse. cbn [bind].
   destruct fs as [|f r]; [reflexivity|]. remember (S (length ns)) as fuel eqn:Efuel.
   simpl in Sp. destruct Sp as [S1 S2].
   destruct (frame_node_walk _ _ _ _ S1) as (nf & Hnf & Hdf & Hpf & Hrf & Hsf).
-  destruct (frame_def_facts _ (FO f (or_introl eq_refl))) as (their & q & Hth & _ & Hgt & _).
+  destruct (frame_outranks_value f (FO f (or_introl eq_refl))) as (their & Hth & Hgt).
   cbn [top_id walk]. rewrite Hnf. unfold prio_of. rewrite Hdf, Hth. cbn [bind].
-  rewrite Hsf. cbn [andb negb]. rewrite andb_false_r.
-  apply N.ltb_lt in Hgt. rewrite Hgt. cbn [andb orb bind].
+  rewrite Hsf. cbn [andb negb]. rewrite Hgt. cbn [andb orb bind].
   rewrite !opt_nat_eqb_refl. cbn [bind]. rewrite Hnf.
   rewrite (upd_id ns (frame_id f) (set_right (Some (length ns))) nf Hnf);
     [|destruct nf; simpl in Hrf; subst; reflexivity].
   rewrite Hrf. rewrite upd_none by lia. reflexivity.
 Qed.
 
-(* ---- the loop state as a spine-machine state ---- *)
 Definition pending_prev (s : secondary) : Prop :=
-  s = S_None \/ is_bin_sec s = true \/ s = S_UnaryPrefix.
-
-Record scalars (st : pstate) : Prop := mkScalars {
-  sc_cg : current_group st = None;
-  sc_gs : group_stack st = [];
-  sc_nll : next_last_left st = None;
-  sc_cfl : check_for_list st = false;
-  sc_sep : separated st = false
-}.
-
-(* an operand is expected: the innermost frame waits for the node [length nodes] *)
-Record pend (st : pstate) (fs : list frame) : Prop := mkPend {
-  pd_spine : spine (nodes st) fs (length (nodes st));
-  pd_ford : fordered fs (length (nodes st));
-  pd_ll : last_left st = top_id fs;
-  pd_np : next_parent st = top_id fs;
-  pd_cover : forall j, j < length (nodes st) -> frames_have fs j;
-  pd_bottom : bottom_lo fs (length (nodes st)) = 0;
-  pd_fok : frames_ok fs;
-  pd_sc : scalars st;
-  pd_prev : pending_prev (prev_sec st)
-}.
-
-(* an operand [t] has just been completed below the frames [fs] *)
-Record compl (st : pstate) (fs : list frame) (t : ntree) : Prop := mkCompl {
-  cp_linked : linked (nodes st) fs t;
-  cp_closed : closed_operand t;
-  cp_ll : last_left st = Some (nid t);
-  cp_cover : forall j, j < length (nodes st) -> frames_have fs j \/ has_id t j;
-  cp_bottom : bottom_lo fs (lo t) = 0;
-  cp_fok : frames_ok fs;
-  cp_sc : scalars st;
-  cp_prev : ends_value (prev_sec st) = true
-}.
-
-Lemma init_pend : pend init_state [].
-Proof.
-  constructor; simpl; auto.
-  - intros j Hj. lia.
-  - intros f [].
-  - constructor; reflexivity.
-  - left. reflexivity.
-Qed.
+  s = S_None \/ is_bin_sec s = true \/ s = S_UnaryPrefix \/ s = S_StartGrouping.
 
 (* value tokens *)
 Definition value_tok_ok (t : token_type) : bool :=
@@ -344,124 +312,24 @@ Proof.
   - right. apply definition_eqb_eq. exact F6.
 Qed.
 
-Lemma frames_have_lt_top fs b j : fordered fs b -> frames_have fs j -> j < b.
-Proof. apply frames_have_lt. Qed.
 
-Theorem step_value ntoks i tok st fs :
-  pend st fs -> is_value_tok tok = true ->
-  exists st', step ntoks i tok st = Ok st' /\
-              compl st' fs (NAtom (length (nodes st)) (ref_def tok) i) /\
-              length (nodes st') = S (length (nodes st)).
-Proof.
-  intros P Hv. destruct P as [Sp F Hll Hnp Cov Bot FO [Hcg Hgs Hnll Hcfl Hsep] Hprev].
-  destruct (value_tok_facts tok Hv) as (sec & Hg & Hs & Hdrop & Hse0 & Hprio & Hnorm & Hident).
-  assert (Hforb : forbidden (prev_sec st) sec false = false).
-  { destruct Hprev as [->|[Hb| ->]].
-    - destruct sec; try discriminate; reflexivity.
-    - destruct (prev_sec st); try discriminate; destruct sec; try discriminate; reflexivity.
-    - destruct sec; try discriminate; reflexivity. }
-  rewrite (step_value_unfold ntoks i tok st (ref_def tok) sec Hg Hs Hdrop Hcg Hnll Hcfl).
-  2:{ rewrite Hll. destruct fs as [|f r]; [left; reflexivity|right].
-      simpl in Sp. destruct Sp as [S1 _]. destruct (frame_node_walk _ _ _ _ S1) as (nf & Hnf & Hdf & _).
-      destruct (frame_def_facts _ (FO f (or_introl eq_refl))) as (their & q & _ & _ & _ & Hse).
-      exists (frame_id f), nf. rewrite Hdf. auto. }
-  2:{ exact Hforb. }
-  2:{ rewrite Hsep. reflexivity. }
-  rewrite Hll, (parse_token_pending _ _ _ Sp FO Hprio Hse0). cbn [bind].
-  eexists. split; [reflexivity|]. split; [|cbn [nodes]; rewrite app_length; simpl; lia].
-  set (nd := mkNode (atom_def (ref_def tok) (top_id fs) (nodes st)) sec (top_id fs) None None (Some i)).
-  assert (Hat : atom_node nd (ref_def tok) i (top_id fs)).
-  { unfold atom_node, nd. cbn [n_sec n_def n_parent n_left n_right n_tok]. split; [exact Hs|].
-    assert (Hd : (atom_def (ref_def tok) (top_id fs) (nodes st) = ref_def tok) \/
-                 (atom_def (ref_def tok) (top_id fs) (nodes st) = D_Property /\ ref_def tok = D_Identifier)).
-    { unfold atom_def. destruct Hident as [E|E].
-      - rewrite E. left. reflexivity.
-      - rewrite E. cbn [definition_eqb definition_index N.eqb Pos.eqb].
-        destruct (top_id fs) as [p|]; [|left; reflexivity].
-        destruct (nth_error (nodes st) p) as [pn|]; [|left; reflexivity].
-        destruct (definition_eqb (n_def pn) D_Access); [right; split; reflexivity|left; reflexivity]. }
-    destruct Hd as [->|[-> E]].
-    - repeat split; auto.
-    - rewrite E. repeat split; reflexivity. }
-  constructor; cbn [nodes last_left prev_sec].
-  - constructor; cbn [nid lo].
-    + eapply spine_ext; [|exact Sp]. intros j Hj. apply nth_error_app_old.
-      eapply frames_have_lt; eauto.
-    + simpl. exists nd. split; [apply nth_error_app_new|exact Hat].
-    + exact F.
-    + exact I.
-  - exact I.
-  - reflexivity.
-  - intros j Hj. rewrite app_length in Hj. simpl in Hj.
-    destruct (Nat.eq_dec j (length (nodes st))) as [->|Hne]; [right; reflexivity|left; apply Cov; lia].
-  - exact Bot.
-  - exact FO.
-  - constructor; cbn [current_group group_stack next_last_left check_for_list separated]; auto.
-  - destruct sec; try discriminate; reflexivity.
-Qed.
-
-Lemma prio10_not_side_effect d : priority d = Some 10%N -> definition_eqb d D_SideEffect = false.
-Proof. destruct d; intros H; try reflexivity; vm_compute in H; discriminate H. Qed.
-
+(* the node last_left points at after a completed operand *)
 Lemma closed_operand_root ns p t :
   denotes ns p t -> closed_operand t ->
-  exists n, nth_error ns (nid t) = Some n /\ definition_eqb (n_def n) D_SideEffect = false.
+  exists n, nth_error ns (nid t) = Some n /\ calm_def (n_def n) = true.
 Proof.
-  destruct t as [i d k|i d k a|i d k a|i d k l r]; simpl; try tauto.
-  - intros (n & Hn & A) _. exists n. split; [exact Hn|]. apply prio10_not_side_effect. apply A.
-  - intros (n & Hn & A) [_ Hse]. exists n. split; [exact Hn|].
-    destruct A as (_ & -> & _). exact Hse.
+  destruct t as [i d k|i d k a|i d k a|i d k l r|i k a]; simpl; try tauto.
+  - intros (n & Hn & A) _. exists n. split; [exact Hn|]. apply plain_calm, prio10_plain. apply A.
+  - intros (n & Hn & A) [_ Hpl]. exists n. split; [exact Hn|].
+    destruct A as (_ & -> & _). apply plain_calm. exact Hpl.
+  - intros (n & Hn & A) _. exists n. split; [exact Hn|]. destruct A as (_ & -> & _). reflexivity.
 Qed.
 
-Theorem step_binary ntoks i tok st fs t :
-  compl st fs t -> is_binary_tok tok = true -> i + 1 < ntoks ->
-  exists st' fs' t',
-    pop (ref_def tok) fs t = (fs', t') /\ step ntoks i tok st = Ok st' /\
-    pend st' (FBin (length (nodes st)) (ref_def tok) (Some i) t' :: fs') /\
-    length (nodes st') = S (length (nodes st)).
+Lemma calm_facts d : calm_def d = true ->
+  definition_eqb d D_SideEffect = false /\ is_optional d = false /\
+  definition_eqb d D_Subexpression = false /\ definition_eqb d D_ExpressionSeparator = false.
 Proof.
-  intros C Hb Hi. destruct C as [L Cl Hll Cov Bot FO [Hcg Hgs Hnll Hcfl Hsep] Hprev].
-  destruct (binary_tok_facts tok Hb) as (sec & my & p & BF).
-  destruct (pop (ref_def tok) fs t) as [fs' t'] eqn:Hpop.
-  destruct (closed_operand_root _ _ _ (lk_den _ _ _ L) Cl) as (ln & Hln & Hse).
-  assert (Hforb : forbidden (prev_sec st) sec (check_for_list st) = false).
-  { rewrite Hcfl. pose proof (bf_sec _ _ _ _ BF) as Hs.
-    destruct (prev_sec st); try discriminate; destruct sec; try discriminate; reflexivity. }
-  rewrite (step_binary_unfold ntoks i tok st (ref_def tok) sec (nid t) ln
-             (bf_def _ _ _ _ BF) (bf_sec _ _ _ _ BF) (bf_drop _ _ _ _ BF) (bf_ident _ _ _ _ BF)
-             Hcg Hnll Hll Hln Hse Hforb ltac:(rewrite Hsep; reflexivity)).
-  destruct (parse_token_linked (nodes st) fs t (ref_def tok) my (rtl_of sec) fs' t' L Cl
-              (bf_prio _ _ _ _ BF) (bf_se _ _ _ _ BF) (bf_atom _ _ _ _ BF)
-              (compat_of_facts _ _ _ _ fs BF FO) Hpop) as (ns' & Hpt & Hlen & Sp' & D' & _).
-  rewrite Hpt. cbn [bind].
-  destruct (Nat.leb_spec ntoks (i + 1)) as [Hle|_]; [lia|].
-  replace (length (nodes st) + 1) with (S (length (nodes st))) by lia.
-  eexists. exists fs', t'. split; [reflexivity|]. split; [reflexivity|].
-  pose proof (pop_linked _ _ _ _ _ _ L Hpop) as L'. destruct L' as [_ D0 F' O'].
-  set (len := length (nodes st)) in *.
-  set (nd := mkNode (ref_def tok) sec (top_id fs') (Some (nid t')) (Some (S len)) (Some i)).
-  assert (Hhi : hi t' < len).
-  { assert (has_id t' (hi t')) as Hh by (clear; induction t'; simpl; auto).
-    rewrite <- Hlen. eapply denotes_lt; eauto. }
-  split; [|cbn [nodes]; rewrite app_length, Hlen; simpl; lia].
-  constructor; cbn [nodes last_left next_parent prev_sec]; rewrite ?app_length, ?Hlen; cbn [length];
-    replace (len + 1) with (S len) by lia.
-  - (* spine *)
-    simpl. split.
-    + exists nd. split; [rewrite <- Hlen; apply nth_error_app_new|].
-      split; [split; [reflexivity|left; split; [exact (bf_sec _ _ _ _ BF)|exists i; split; reflexivity]]|].
-      split; [reflexivity|]. split; [reflexivity|]. split; [reflexivity|].
-      eapply denotes_ext; [|exact D']. intros j Hj. apply nth_error_app_old.
-      eapply denotes_lt; eauto.
-    + eapply spine_ext; [|exact Sp']. intros j Hj. apply nth_error_app_old. rewrite Hlen.
-      pose proof (frames_have_lt _ _ _ F' Hj) as R. pose proof (ordered_lo_hi t' O') as R2. lia.
-  - simpl. split; [lia|]. split; [split; [exact O'|exact Hhi]|exact F'].
-  - reflexivity.
-  - reflexivity.
-  - intros j Hj. simpl. destruct (Nat.eq_dec j len) as [->|Hne]; [left; left; reflexivity|].
-    destruct (proj2 (pop_has _ _ _ _ _ Hpop j) (Cov j ltac:(lia))) as [H|H]; [right; exact H|left; right; exact H].
-  - simpl. rewrite (pop_bottom _ _ _ _ _ Hpop). exact Bot.
-  - intros f [<-|Hf]; [exact (bf_frame _ _ _ _ BF)|]. eapply pop_frames_ok; eauto.
-  - constructor; cbn [current_group group_stack next_last_left check_for_list separated]; auto.
-  - right. left. exact (bf_sec _ _ _ _ BF).
+  unfold calm_def. intros H. apply andb_true_iff in H. destruct H as [H H4].
+  apply andb_true_iff in H. destruct H as [H H3]. apply andb_true_iff in H. destruct H as [H1 H2].
+  repeat split; apply negb_true_iff; assumption.
 Qed.
